@@ -96,7 +96,8 @@ Value& OpSUBExpression::value(Context& ctx) const
       {
         if (a2.isNull() || a1.isNull())
           return LVAL2(Value(Value::type_integer), a1, a2);
-        Value val(Integer(*a1.integer() - *a2.integer()));
+        /* integer arithmetic wraps around (see the manual); signed overflow is undefined in C++ */
+        Value val(Integer(static_cast<uint64_t>(*a1.integer()) - static_cast<uint64_t>(*a2.integer())));
         return LVAL2(val, a1, a2);
       }
       case Type::IMAGINARY:
